@@ -19,7 +19,7 @@ UNITS = [
     {'name': 'rcl.read', 'backend': 'verus', 'tier': 'quick'},
     {'name': 'k.rcl_int', 'backend': 'kani', 'tier': 'quick', 'props': ['C09', 'C12']},
     {'name': 'k.rank_small_counters', 'backend': 'kani', 'tier': 'quick', 'props': ['C01', 'C12']},
-    {'name': 'k.mod2', 'backend': 'kani', 'tier': 'thorough', 'props': ['C19', 'C12']},
+    {'name': 'k.mod2', 'backend': 'kani', 'tier': 'thorough', 'props': ['C12']},
     {'name': 'lenders.rewind', 'backend': 'verus', 'tier': 'quick', 'c12': False},
     {'name': 'bfv.core@u64', 'backend': 'verus', 'tier': 'quick'},
     {'name': 'bfv.core@usize', 'backend': 'verus', 'tier': 'quick'},
